@@ -27,7 +27,7 @@ fn main() {
         "Cases are operation histories (constructor, then set / range-modify / ask / lower_bound / lower_bound_rev / debug / rebuild) \
          on a Segtree instantiated with one of 14 item algebras (built-ins, nested Combinators, and harness items with a free, \
          non-commutative merge and non-commuting modifiers), interpreted in lock-step with a plain Vec model; every ask must equal the \
-         in-order fold of the model, and after the history every element and the whole range are compared. Non-trivial = a range modify \
+         in-order fold of the model, and after the history every element and the whole range are compared. Sizes: 1..=130 biased to 2^k-1, 2^k, 2^k+1, plus a class of large trees (131..2^12 quick, ..2^16 thorough) with short histories, plus constructors fed with items handed out by the tree itself (ask(i,i) results). Non-trivial = a range modify \
          covering a strict sub-range (l>0 or r<n-1) is later observed by an ask or set overlapping it with no rebuild in between. \
          Distinct = distinct (sub-check, case) by SipHash of the case value.",
     );
